@@ -228,7 +228,24 @@ func checkCase(c Case) error {
 			if sh.Name != s.Name {
 				return fmt.Errorf("sheet %d is %q, want %q", i, sh.Name, s.Name)
 			}
+			if byName, err := r.SheetByName(s.Name); err != nil || byName != sh {
+				return fmt.Errorf("SheetByName(%q) is not Sheet(%d) (err %v)", s.Name, i, err)
+			}
 			g := s.Grid()
+			// (a') Tables(): header row + data rows are the same rectangle
+			if tb := r.Tables(); len(tb) != len(sheets) {
+				return fmt.Errorf("Tables() has %d entries, %d sheets", len(tb), len(sheets))
+			} else if len(g) > 0 {
+				rows := append([][]string{tb[i].Headers}, tb[i].Rows...)
+				if err := matchGrid(rows, g, func(x string) string { return x }); err != nil {
+					return fmt.Errorf("Tables(): sheet %q: %v", s.Name, err)
+				}
+			}
+			for k := range g {
+				if k[0] >= sh.RowCount() || k[1] >= sh.ColCount() {
+					return fmt.Errorf("grid: sheet %q has a value at %s but reports %d rows x %d columns", s.Name, xlsxw.Ref(k[1], k[0]), sh.RowCount(), sh.ColCount())
+				}
+			}
 			for k, want := range g {
 				cell := sh.Cell(k[0], k[1])
 				if cell == nil {
